@@ -23,6 +23,9 @@ try:
     rc0, out0 = sh("timeout 120 /venv/bin/python %s/demo.py" % os.path.abspath(src), cwd=scratch, env=env)
     meta["demo_clean_exit"] = rc0
     rc, out = sh("git apply %s/patch.diff" % os.path.abspath(src), cwd=scratch)
+    if rc:
+        rc, out = sh("git apply -3 %s/patch.diff && git reset -q" % os.path.abspath(src), cwd=scratch)
+        meta["applied_with_3way"] = rc == 0
     meta["patch_applies"] = rc == 0
     if rc:
         meta["apply_error"] = out[-500:]
@@ -32,7 +35,7 @@ try:
         meta["demo_patched_tail"] = out1[-400:]
         if "--no-tests" not in sys.argv:
             base = json.load(open("/root/.vp/BASELINE.json"))["stable_pass"]
-            rc2, out2 = sh("timeout 1500 /venv/bin/python -m pytest -q -p no:cacheprovider --timeout=300 --continue-on-collection-errors --junitxml=/tmp/seedtest-%s.xml tests" % sid, cwd=scratch, env=env, timeout=1600)
+            rc2, out2 = sh("unshare -n sh -c 'ip link set lo up; ip route add default dev lo 2>/dev/null; timeout 1500 /venv/bin/python -m pytest -q -p no:cacheprovider --timeout=300 --continue-on-collection-errors --junitxml=/tmp/seedtest-%s.xml tests'" % sid, cwd=scratch, env=env, timeout=1600)
             import xml.etree.ElementTree as ET
             passed = set()
             try:
